@@ -1,10 +1,182 @@
-import EphVerif.Model.Providers
-import EphVerif.Spec.Providers
+/-
+C06 — provider lookups return exactly the live, non-withdrawn providers.
+
+Property theorems.  Model: `EphVerif.Providers` (mirror of `KademliaTable`'s locator table),
+specification: `EphVerif.C06Spec` (abstract directory with eager per-provider expiry, no sweep),
+joint runs over histories: `EphVerif.C06L.run`.  Everything is for *every* history (any number of
+chunks, peers, TTLs of any sign, clock advances ≥ 0) and *every* tie-break hint of the truncation.
+-/
+import EphVerif.Lemmas.C06Two
 
 namespace EphVerif.C06
-open EphVerif.Providers
+open EphVerif.Providers EphVerif.C06Spec EphVerif.C06L List
 
 /-- generated constant obligation: the code keeps the 20 providers the property names -/
 theorem maxProviders_eq : maxProviders = 20 := by decide
+
+/-! ### refinement -/
+
+/-- **Refinement.**  Run the model and the abstract directory over the same history (the
+    directory's `keep` choice at an announcement being the live part of the set the model kept).
+    Then every lookup returns the same set of `(peer, expiry)` as the directory — as a permutation,
+    hence also as a set — with at most 20 entries; and at every announcement the directory accepts
+    the model's kept set as a legal choice of "the 20 expiring last" and the model keeps at most
+    20 holders. -/
+theorem refines (now0 : Int) (ops : List Op) : ∀ o ∈ (run (init now0) ops).2, o.ok :=
+  (run_good (good_init now0) ops).2
+
+/-- the same, spelled out for a lookup observation -/
+theorem refines_find (now0 : Int) (ops : List Op) (c : String) (m s : List Ann)
+    (h : Obs.found c m s ∈ (run (init now0) ops).2) :
+    m ~ s ∧ (∀ a, a ∈ m ↔ a ∈ s) ∧ m.length ≤ 20 :=
+  refines now0 ops _ h
+
+/-- the same, as a statement about the state a history leads to: after *any* history, a lookup of
+    *any* chunk returns exactly the announcements the abstract directory holds live at that time
+    (each provider's most recent announcement, unless withdrawn or cut, and not yet expired). -/
+theorem refines_at (now0 : Int) (ops : List Op) (c : String) :
+    let st := (run (init now0) ops).1
+    (findProviders st.t st.now c).2 ~ C06Spec.find st.s st.now c ∧
+      (∀ a, a ∈ (findProviders st.t st.now c).2 ↔ a ∈ C06Spec.find st.s st.now c) ∧
+      (findProviders st.t st.now c).2.length ≤ 20 := by
+  intro st
+  have h := refines now0 (ops ++ [.find c]) (.found c (findProviders st.t st.now c).2 (C06Spec.find st.s st.now c))
+    (by rw [run_append]; simp [run, step, st])
+  exact h
+
+/-- what the directory answers is by definition the unexpired part of its announcement list -/
+theorem spec_find_live (s : S) (now : Int) (c : String) (a : Ann) :
+    a ∈ C06Spec.find s now c ↔ a ∈ s c ∧ now < a.exp := by
+  simp [C06Spec.find, liveAt]
+
+/-! ### sweeps -/
+
+/-- **A sweep removes exactly the expired holders** of every chunk, in every reachable state:
+    what is left is the list of holders with `now < expiry`, in their old order.  No provider goes
+    before its own expiry, whatever the other providers of the chunk announced. -/
+theorem sweep_removes_only_expired (now0 : Int) (ops : List Op) (c : String) :
+    let st := (run (init now0) ops).1
+    holdersOf (sweep st.t st.now) c = (holdersOf st.t c).filter (liveAt st.now) := by
+  intro st
+  exact sweep_holders (run_good (good_init now0) ops).1.ok st.now c
+
+/-- a lookup immediately after a sweep returns literally the same list as without the sweep -/
+theorem sweep_safe_now (now0 : Int) (ops : List Op) (c : String) :
+    let st := (run (init now0) ops).1
+    (findProviders (sweep st.t st.now) st.now c).2 = (findProviders st.t st.now c).2 := by
+  intro st
+  exact sweep_find_same (run_good (good_init now0) ops).1.ok st.now c
+
+/-- **Sweep safety.**  Insert a sweep anywhere in a history: the abstract directory (which has no
+    sweep) is in the same state as without it, and every lookup of the rest of the history still
+    returns exactly what the directory holds live. -/
+theorem sweep_safe (now0 : Int) (pre post : List Op) :
+    (run (init now0) (pre ++ [.sweep])).1.s = (run (init now0) pre).1.s ∧
+    (run (init now0) (pre ++ [.sweep])).1.now = (run (init now0) pre).1.now ∧
+    ∀ o ∈ (run (init now0) (pre ++ .sweep :: post)).2, o.ok := by
+  refine ⟨?_, ?_, refines now0 _⟩ <;> rw [run_append] <;> simp [run, step]
+
+/-- **Sweep safety, literally.**  Inserting a sweep anywhere in a history changes no later
+    lookup result: for every continuation `post` of `pre ++ [sweep]` there is a continuation of
+    `pre` with the same operations — differing at most in how ties at a cut to 20 are broken,
+    which the property leaves open and `std::sort` does not fix — in which every lookup returns
+    the same set of `(peer, expiry)`; and conversely.  (Stated with re-chosen hints because a hint
+    is validated against the holder list, which after a sweep no longer contains the expired
+    entries and may be ordered differently; the set of lookups a history can produce is what the
+    sweep leaves unchanged.) -/
+theorem sweep_safe_later (now0 : Int) (pre post : List Op) :
+    (∃ post', post'.map eraseHint = post.map eraseHint ∧
+      SameAnswers (run (run (init now0) (pre ++ [.sweep])).1 post).2 (run (run (init now0) pre).1 post').2) ∧
+    (∃ post', post'.map eraseHint = post.map eraseHint ∧
+      SameAnswers (run (run (init now0) pre).1 post).2 (run (run (init now0) (pre ++ [.sweep])).1 post').2) := by
+  have hb := (run_good (good_init now0) pre).1
+  have ha := (run_good (good_init now0) (pre ++ [.sweep])).1
+  have hs : (run (init now0) (pre ++ [.sweep])).1.s = (run (init now0) pre).1.s := (sweep_safe now0 pre []).1
+  have hn : (run (init now0) (pre ++ [.sweep])).1.now = (run (init now0) pre).1.now := (sweep_safe now0 pre []).2.1
+  constructor
+  · refine two_runs post _ _ ha hn.symm ?_
+    rw [hs, hn]; exact hb
+  · refine two_runs post _ _ hb hn ?_
+    rw [← hs, ← hn]; exact ha
+
+/-! ### truncation to the 20 expiring last -/
+
+/-- **Top 20.**  After `add_contact` (any table, any hint) the holder list of the chunk is a
+    valid cut of the list before truncation (`old` minus the announcing peer, plus the new
+    entry): `min 20 n` entries are kept and every dropped entry expires no later than every
+    kept one. -/
+theorem top20 (t : Table) (now : Int) (c p : String) (ttl : Int) (hint : Option (List String)) :
+    let base := addBase (holdersOf t c) p (now + ttl)
+    let kept := holdersOf (addContact t now c p ttl hint) c
+    kept.length = min 20 base.length ∧
+      ∃ dropped, kept ++ dropped ~ base ∧ ∀ k ∈ kept, ∀ d ∈ dropped, d.exp ≤ k.exp := by
+  intro base kept
+  have hk : kept = addKept (holdersOf t c) p (now + ttl) hint := by
+    simp [kept, add_holders]
+  rw [hk]
+  rcases addKept_cases (holdersOf t c) p (now + ttl) hint with ⟨hl, heq⟩ | ⟨hl, d, hc⟩
+  · rw [heq]
+    exact ⟨by simp only [base]; omega, [], by rw [append_nil], by simp⟩
+  · exact ⟨by rw [hc.len]; simp only [base]; omega, d, hc.perm, hc.le⟩
+
+/-- `cut` is a valid cut whatever the hint is — a valid one, an invalid one or none: exactly `n`
+    entries are kept, together with the dropped ones they are a permutation of the input, and
+    every dropped entry expires no later than every kept one. -/
+theorem cut_valid (n : Nat) (base : List Ann) (hint : Option (List String)) (hn : n ≤ base.length) :
+    (cut n base hint).length = n ∧
+      ∃ dropped, cut n base hint ++ dropped ~ base ∧ ∀ k ∈ cut n base hint, ∀ d ∈ dropped, d.exp ≤ k.exp := by
+  obtain ⟨d, hc⟩ := cut_ok n base hint hn
+  exact ⟨hc.len, d, hc.perm, hc.le⟩
+
+/-- the fallback sort is a permutation sorted by descending expiry -/
+theorem sortDesc_correct (l : List Ann) :
+    sortDesc l ~ l ∧ (sortDesc l).Pairwise (fun a b => b.exp ≤ a.exp) :=
+  ⟨sortDesc_perm l, sortDesc_sorted l⟩
+
+/-! ### non-vacuity: concrete histories -/
+
+section Examples
+
+/-- 21 providers of one chunk, `p1` and `p2` tied for the last place (both expire at 5 s) -/
+def qs : List (String × Int) :=
+  [("q0", 10), ("q1", 11), ("q2", 12), ("q3", 13), ("q4", 14), ("q5", 15), ("q6", 16), ("q7", 17), ("q8", 18), ("q9", 19), ("q10", 20), ("q11", 21), ("q12", 22), ("q13", 23), ("q14", 24), ("q15", 25), ("q16", 26), ("q17", 27)]
+
+def crowd (hint : Option (List String)) : List Op :=
+  [.add "c" "p1" 5 none, .add "c" "p2" 5 none] ++ (qs.map fun q => Op.add "c" q.1 q.2 none) ++
+  [.add "c" "p21" 7 hint, .find "c"]
+
+def peersOf (os : List Obs) : List (List String) :=
+  os.filterMap fun | .found _ m _ => some (m.map (·.peer)) | _ => none
+
+/-- no hint: the stable fallback keeps `p1`, drops `p2`; 20 providers are returned -/
+example : ((peersOf (run (init 0) (crowd none)).2).map fun l => (l.length, l.contains "p1", l.contains "p2"))
+    = [(20, true, false)] := by decide +kernel
+
+/-- the other legal tie-break (what an unstable `std::sort` may do): keep `p2`, drop `p1` -/
+example : ((peersOf (run (init 0) (crowd (some (["p2", "p21"] ++ qs.map (·.1))))).2).map
+      fun l => (l.length, l.contains "p1", l.contains "p2")) = [(20, false, true)] := by decide +kernel
+
+/-- an illegal hint (dropping the longest-lived `q17` instead) is refused: fallback result -/
+example : ((peersOf (run (init 0) (crowd (some (["p1", "p2", "p21"] ++ (qs.take 17).map (·.1))))).2).map
+      fun l => (l.length, l.contains "p1", l.contains "p2", l.contains "q17")) = [(20, true, false, true)] := by decide +kernel
+
+/-- expiry between announcement and lookup: live at deadline − 1, gone at the deadline;
+    a TTL ≤ 0 never shows up -/
+example : (run (init 1000) [.add "c" "p" 5 none, .add "c" "z" 0 none, .adv 4, .find "c", .adv 1, .find "c"]).2 =
+    [.added [⟨"p", 1005⟩] true, .added [⟨"p", 1005⟩, ⟨"z", 1000⟩] true,
+     .found "c" [⟨"p", 1005⟩] [⟨"p", 1005⟩], .found "c" [] []] := by decide
+
+/-- the sweep of the repaired code: a short-lived later announcement does not take the
+    long-lived provider with it -/
+example : (run (init 0) [.add "c" "long" 100 none, .add "c" "short" 10 none, .adv 10, .sweep, .find "c"]).2 =
+    [.added [⟨"long", 100⟩] true, .added [⟨"long", 100⟩, ⟨"short", 10⟩] true,
+     .found "c" [⟨"long", 100⟩] [⟨"long", 100⟩]] := by decide
+
+/-- withdrawal and re-announcement with a shorter TTL -/
+example : (run (init 0) [.add "c" "a" 100 none, .add "c" "b" 50 none, .withdraw "c" "a", .add "c" "b" 3 none,
+      .adv 2, .find "c", .adv 1, .find "c"]).2.drop 3 =
+    [.found "c" [⟨"b", 3⟩] [⟨"b", 3⟩], .found "c" [] []] := by decide
+
+end Examples
 
 end EphVerif.C06
